@@ -132,20 +132,41 @@ type admitCase struct {
 	Suite ref.Suite `json:"suite"`
 	Input inputJ    `json:"input"`
 	Field string    `json:"field"`
+	// Parsed: the suite object is what the library's own parser / registry returns for Suite.Raw (NewRawSuite), not a
+	// configuration built by the monitor; Suite holds what the strict reference parser says the string means
+	Parsed bool `json:"parsed,omitempty"`
 }
 
 func judgeAdmit(c *Ctx, k admitCase) {
 	r := c.R
 	in := k.Input.ref()
 	want := ref.Admit(k.Suite, in)
-	cfg := toCfg(k.Suite)
+	var cfg otp.Suite = toCfg(k.Suite)
+	vcfg := toCfg(k.Suite)
+	if k.Parsed {
+		var ps otp.Suite
+		var perr error
+		if pan := monCatch(func() { ps, perr = otp.NewRawSuite(k.Suite.Raw) }); pan != nil || perr != nil || ps == nil {
+			r.Count("parsed_suite_strings_refused_by_the_parser", 1) // whether it should be is C15's question
+			return
+		}
+		cfg = ps
+		if pan := monCatch(func() { vcfg = ps.Config() }); pan != nil {
+			r.Violate("C14|Suite.Config|panic|", "Config() of a parsed suite panics", "admit", k, "a configuration", panicStr(pan))
+			return
+		}
+		r.Count("admission_cases_on_parser_made_suites", 1)
+	}
 	oin := toOCRAInput(in)
 	var ierr error
-	pan := monCatch(func() { ierr = oin.Validate(cfg) })
+	pan := monCatch(func() { ierr = oin.Validate(vcfg) })
 	r.Eval(1)
 	lens := fmt.Sprintf("%d,%d,%d,%d,%d", lenOrNil(in.Counter), lenOrNil(in.Challenge), lenOrNil(in.Password), lenOrNil(in.Session), lenOrNil(in.Timestamp))
 	r.Nontrivial(fmt.Sprintf("a|%+v|%s", k.Suite, lens))
 	rule := admitRule(k.Suite, in)
+	if k.Parsed {
+		rule += ",parser-made suite"
+	}
 	if pan != nil {
 		r.Violate("C14|OCRAInput.Validate|panic|", "OCRAInput.Validate panics", "admit", k, "an error or nil", panicStr(pan))
 		return
@@ -326,10 +347,69 @@ func c14Admission(c *Ctx, emit func(admitCase)) {
 	}
 }
 
+// parsedAdmissionStrings: suite strings whose suite object comes from the library's parser or registry. The admission
+// rule is a function of the selected fields alone: a session token that carries a number (S001, S064, S128, S129,
+// S256, S512, S999), a challenge format, a time step or the spelling of the string do not move any bound.
+func parsedAdmissionStrings(c *Ctx) []string {
+	var out []string
+	regs := liveNames()
+	for i, n := range regs {
+		if i%4 == 0 || c.Thorough {
+			out = append(out, n)
+		}
+	}
+	sess := []string{"S", "S000", "S001", "S007", "S008", "S020", "S063", "S064", "S065", "S100", "S127", "S128", "S129", "S130", "S140", "S256", "S512", "S999"}
+	heads := []string{"OCRA-1:HOTP-SHA1-6:QN08", "OCRA-1:HOTP-SHA256-8:C-QA10-PSHA1", "OCRA-1:HOTP-SHA512-10:QH10-PSHA512", "ocra-1:hotp-sha1-7:c-qn10"}
+	tails := []string{"", "-T1M", "-T30S", "-T2H"}
+	for i, sx := range sess {
+		for j, h := range heads {
+			if !c.Thorough && (i+j)%2 == 1 && sx != "S064" && sx != "S512" {
+				continue
+			}
+			t := tails[(i+j)%len(tails)]
+			x := h + "-" + sx + t
+			if h[0] == 'o' {
+				x = h + "-" + strings.ToLower(sx) + t
+			}
+			out = append(out, x)
+		}
+	}
+	return out
+}
+
+func c14ParsedAdmission(c *Ctx, emit func(admitCase)) {
+	names := []string{"counter", "challenge", "password", "session", "timestamp"}
+	for _, raw := range parsedAdmissionStrings(c) {
+		s, ok := ref.ParseSuiteNameFold(raw)
+		if !ok {
+			continue
+		}
+		s.Raw = raw
+		valid := validInputFor(s)
+		for f := 0; f < 5; f++ {
+			lens := make([]int, 0, 160)
+			for n := 0; n <= 140; n++ {
+				lens = append(lens, n)
+			}
+			if f == 3 {
+				lens = append(lens, 255, 256, 257, 511, 512, 513, 998, 999, 1000, 1024, 4096)
+			}
+			for _, n := range lens {
+				if f != 3 && !c.Thorough && n > 12 && n < 126 && n%8 > 1 && n != 19 && n != 20 && n != 21 && n != 31 && n != 32 && n != 33 && n != 63 && n != 64 && n != 65 {
+					continue // quick: the session field at every length, the other fields around their bounds
+				}
+				in := valid
+				setField(&in, f, n, false)
+				emit(admitCase{Suite: s, Input: inputToJ(in), Field: names[f], Parsed: true})
+			}
+		}
+	}
+}
+
 func init() {
 	register(&Prop{
 		ID: "C14",
-		Rule: "usability: the complete grid of 32 field subsets x digits -1..12 x hashes 0..4 x challenge formats 0..6 x password hashes 0..3 x time steps {-1,0,1,60} (250 880 configurations) judged by SuiteConfig.Validate, NewSuite, GenerateOCRA and ValidateOCRA against the usability predicate; admission: for 160 usable configuration classes each field alone at every length 0..140 (nil and empty at 0) with the others valid, thorough adds all pairs of fields over 19 boundary lengths; outcomes of OCRAInput.Validate, GenerateOCRA and ValidateOCRA compared with the independent admission predicate; " +
+		Rule: "usability: the complete grid of 32 field subsets x digits -1..12 x hashes 0..4 x challenge formats 0..6 x password hashes 0..3 x time steps {-1,0,1,60} (250 880 configurations) judged by SuiteConfig.Validate, NewSuite, GenerateOCRA and ValidateOCRA against the usability predicate; admission: for 160 usable configuration classes each field alone at every length 0..140 (nil and empty at 0) with the others valid, thorough adds all pairs of fields over 19 boundary lengths; the same single-field sweep (session 0..140 and 255..4096 at every length) on suite objects made by the library's own parser and registry from advertised names and from strings with numbered session tokens (S000..S999), time steps and lower-case spellings, judged by what the strict reference parser says the string selects (observed.admission_cases_on_parser_made_suites); outcomes of OCRAInput.Validate, GenerateOCRA and ValidateOCRA compared with the independent admission predicate; " +
 			"distinct_nontrivial counts distinct configurations plus distinct (configuration, five field lengths) tuples",
 		Run: func(c *Ctx) {
 			var us []usableCase
@@ -380,6 +460,7 @@ func init() {
 			parallelJudge(c, us, judgeUsable)
 			var as []admitCase
 			c14Admission(c, func(k admitCase) { as = append(as, k) })
+			c14ParsedAdmission(c, func(k admitCase) { as = append(as, k) })
 			c.R.Extra["admission_cases"] = len(as)
 			parallelJudge(c, as, judgeAdmit)
 		},
